@@ -193,9 +193,7 @@ impl Property for C04 {
                 exec.driver.log.as_ref().map(|log| log.queue_exists(&name) && is_empty(log, &name).unwrap_or(false)).unwrap_or(false)
             }).unwrap_or(false);
             let step = exec.step_concrete(cop)?;
-            if let Outcome::Panic(msg) | Outcome::IoError(msg) | Outcome::OpenFailed(msg) = &step.real.outcome {
-                return Err(exec.failure(format!("op #{} {}: {msg}", step.idx, step.cop.short()), "call-failed", json!({})));
-            }
+            exec.usable_or_skip(&step)?;
             env.evals(1);
             unlinks += exec.effects()[step.effects.clone()].iter().filter(|effect| matches!(effect, Effect::Unlink { .. })).count() as u64;
             if matches!(step.cop, COp::Restart { .. }) {
